@@ -306,6 +306,32 @@ def run(sc):
     return rec
 
 
+SEEDED_FAULTS = {
+    # (class, lines of update() to drop): used only by the self-test of the
+    # check, on an in-memory copy of the method - /repo is not touched
+    'recycle_x_only': ('InletBase', ('inlet_pa.y[all_idx] +=',
+                                     'inlet_pa.z[all_idx] +=')),
+    'outlet_no_remove': ('OutletBase', ('source_pa.remove_particles(all_idx)',)),
+    'outlet_no_delete': ('OutletBase', ('outlet_pa.remove_particles(all_idx)',)),
+}
+
+
+def seed_fault(name):
+    import inspect
+    import textwrap
+    from pysph.sph.bc import inlet_outlet_manager as M
+    cname, drop = SEEDED_FAULTS[name]
+    cls = getattr(M, cname)
+    src = textwrap.dedent(inspect.getsource(cls.update)).splitlines()
+    kept = [l for l in src if not any(d in l for d in drop)]
+    if len(kept) != len(src) - len(drop):
+        raise RuntimeError('seeded fault %s does not apply' % name)
+    ns = {}
+    exec(compile('\n'.join(kept) + '\n', '<seeded %s>' % name, 'exec'),
+         M.__dict__, ns)
+    cls.update = ns['update']
+
+
 def main():
     import resource
     import signal
@@ -323,6 +349,8 @@ def main():
         sys.stderr.write('pysph imported from %s, expected %s\n' % (
             pysph.__file__, src))
         sys.exit(3)
+    if os.environ.get('C16_SEEDED_FAULT'):
+        seed_fault(os.environ['C16_SEEDED_FAULT'])
     scens = [json.loads(l) for l in open(sys.argv[1])]
     devnull = os.open(os.devnull, os.O_WRONLY)
     with open(sys.argv[2], 'w') as fo:
